@@ -18,6 +18,16 @@ def main():
     seed = int(os.environ.get('VERIF_SEED', '0') or 0)
     ctx = common.Ctx(a.prop, a.tier, seed)
     try:
+        try:      # optional per-property extraction from the live library, before the Lean build (harness/extract_<id>.py)
+            ex = importlib.import_module('extract_' + a.prop.lower())
+        except ModuleNotFoundError:
+            ex = None
+        if ex is not None:
+            try:
+                ex.prebuild()
+            except Exception as e:      # noqa  -- the library under test could not be probed: the generated table is stale / missing
+                ctx.notes.append(f'extraction failed: {type(e).__name__}: {str(e)[:200]}')
+                ctx.extract_error = repr(e)
         mod = importlib.import_module(a.prop.lower())
         exe = getattr(mod, 'DRIVER', f'drv_{a.prop}')
         targets = getattr(mod, 'LEAN_TARGETS', None) or [f'NasdaqModel.Props.{a.prop}', exe]
